@@ -190,6 +190,52 @@ def sticky_chooser(seed, stick=0.85, **kw):
     return choose
 
 
+def starving_chooser(seed, victim_role="user", p_timeout=0.7, **kw):
+    """runs everybody else to a standstill -- firing their timed waits too -- before the victim role (by default the user threads)
+    gets its next step: the schedules in which a whole episode of the pool's life (idle time-outs, reaps, re-spawns) fits between two
+    statements of submit() / shutdown() / _resize()"""
+    rng = random.Random(seed * 17 + 3)
+    base = random_chooser(seed, **kw)
+
+    def choose(kern, cands):
+        others = [i for i, (kind, x) in enumerate(cands) if kind == "run" and getattr(x, "role", None) != victim_role]
+        if others:
+            return rng.choice(others)
+        touts = [i for i, (kind, x) in enumerate(cands) if kind == "timeout" and getattr(x, "role", None) != victim_role
+                 and x.pending[0] != "sleep"]
+        if touts and rng.random() < p_timeout:
+            return rng.choice(touts)
+        return base(kern, cands)
+    return choose
+
+
+def freezing_chooser(seed, p_freeze=0.1, p_timeout=0.6, **kw):
+    """at a random scheduling point an actor is frozen where it stands; everybody else then runs to a standstill (timed waits
+    expiring too) before it is thawed: a whole episode of the pool's life fits between two statements of ANY thread -- the
+    manager between reading its counters and popping the worker, a worker inside its exit path, a user inside submit()"""
+    rng = random.Random(seed * 13 + 5)
+    base = random_chooser(seed, **kw)
+    frozen = [None]
+
+    def choose(kern, cands):
+        runs = [i for i, (kind, x) in enumerate(cands) if kind == "run"]
+        if frozen[0] is not None:
+            others = [i for i in runs if cands[i][1] is not frozen[0]]
+            if others:
+                return rng.choice(others)
+            touts = [i for i, (kind, x) in enumerate(cands) if kind == "timeout" and x is not frozen[0] and x.pending[0] != "sleep"]
+            if touts and rng.random() < p_timeout:
+                return rng.choice(touts)
+            frozen[0] = None
+        i = base(kern, cands)
+        kind, x = cands[i]
+        if kind == "run" and len(runs) + sum(1 for k, _ in cands if k == "timeout") > 1 and rng.random() < p_freeze:
+            frozen[0] = x
+            return choose(kern, cands)
+        return i
+    return choose
+
+
 def replay_chooser(choices):
     it = iter(choices)
 
